@@ -12,7 +12,8 @@ enum CorpusFlag {
   CF_RAX = 4,      // writes rax (and nothing else)
   CF_FILLER = 8,   // expected to emit nothing (blank, comment, label, directive)
   CF_REJECT = 16,  // expected to be rejected when assembled alone
-  CF_OPTSENS = 32  // encoding depends on the option state
+  CF_OPTSENS = 32,  // encoding depends on the option state
+  CF_EITHER = 64    // unusual input: admitted as an instruction line if the tree accepts it, as a rejected line if it rejects it
 };
 
 struct CorpusLine {
